@@ -15,8 +15,8 @@ import (
 	"crypto/x509"
 	"crypto/x509/pkix"
 	"encoding/pem"
-	"math/big"
 	"fmt"
+	"math/big"
 	"net"
 	"os"
 	"strconv"
@@ -534,7 +534,9 @@ func scenDurations(st *ekit.Stats, tier string) {
 		{"send-interval:pub:count2", func(p, v string) []string {
 			return []string{"--pub", "--bind", "ipc://" + p, "--data", "x", "--send-interval", v, "--count", "2"}
 		}},
-		{"send-delay:pub:no-peer", func(p, v string) []string { return []string{"--pub", "--bind", "ipc://" + p, "--data", "x", "--send-delay=" + v} }},
+		{"send-delay:pub:no-peer", func(p, v string) []string {
+			return []string{"--pub", "--bind", "ipc://" + p, "--data", "x", "--send-delay=" + v}
+		}},
 	}
 	for _, ub := range unitBuilders {
 		for _, uv := range unitVals {
